@@ -1071,8 +1071,9 @@ def run_routes(ctx, cls, ploidy, pops, seed, only=None):
                         if not numpy.array_equal(obj.mat, mat0):
                             acc.append(Violation(f"{how}:input-mutated", "the population object changed"))
                         _raise(acc)
-                    ctx.evaluations += 1
                     ok = guard(ctx, body, case, f"{how}:")
+                    if cbox.get("ran") or not ok:
+                        ctx.evaluations += 1
                     if cbox.get("ran"):
                         ctx.count(f"R:route:{rname}")
                         if ok:
